@@ -389,6 +389,15 @@ def asymmetric_crypto(w):
     w.one(kdrv.encrypt(pub, cparams(cryptographic_algorithm=ALG.RSA, padding_method=PM.PSS, hashing_algorithm=E.HashingAlgorithm.SHA_256), pt), 'bad padding method')
     w.one(kdrv.encrypt(pub, cparams(cryptographic_algorithm=ALG.RSA, padding_method=PM.PKCS1v15), pt * 8), 'plaintext too long for rsa')
     w.one(kdrv.decrypt(priv, oaep, pt), 'decrypt with private key (symmetric only)')
+    # the engine refuses asymmetric Decrypt, so the crypto engine's RSA decryption failure path is driven directly
+    ce = w.eng.engine._cryptography_engine
+    privb = w.secret.get(priv)
+    for lab, ctx_ in (('garbage ciphertext', w.can.new('ciphertext', 128)), ('short ciphertext', w.can.new('ciphertext', 24))):
+        try:
+            ce.decrypt(ALG.RSA, privb, ctx_, padding_method=PM.OAEP, hashing_algorithm=E.HashingAlgorithm.SHA_256)
+        except Exception as e:
+            w.messages.append((len(w.trace), 'message' if type(e).__name__ == 'CryptographicFailure' else 'client-error', str(e)))
+        w.trace.append({'step': len(w.trace), 'direct': 'crypto engine rsa decrypt: ' + lab})
     # signing
     data = w.can.new('signed-data', 32)
     pss = cparams(cryptographic_algorithm=ALG.RSA, padding_method=PM.PSS, hashing_algorithm=E.HashingAlgorithm.SHA_256)
@@ -618,6 +627,102 @@ def monitor_and_config(w):
             c.set_setting(k, v)
         except Exception as e:
             w.messages.append((len(w.trace), 'client-error', '%s: %s' % (type(e).__name__, e)))
+
+
+def _learn_value(w, uid, kind):
+    """Get the object and register its (server-made) value as a canary."""
+    if uid is None:
+        return
+    g = w.one(kdrv.get(uid), 'learn value of %s' % uid)
+    try:
+        w.can.add(kind, bytes.fromhex(g['payload']['secret']['key_block']['key_value']['key_material']))
+    except Exception:
+        pass
+
+
+@atom()
+def batch_placeholder(w):
+    """Batches in which an item that creates an object is followed by items WITHOUT a unique identifier: the ID
+    placeholder set by the first item is what the later items address - and quote in their messages and log lines."""
+    DM, HA = E.DerivationMethod, E.HashingAlgorithm
+    base = reg_sym(w, n=32, kind='derive-base')
+    salt = w.can.new('salt', 16)
+    sha = cparams(hashing_algorithm=HA.SHA_256)
+    hm = reg_sym(w, n=32, alg=ALG.HMAC_SHA256, kind='hmac')
+
+    def creators():
+        key = w.can.new('key-material:batch', 32)
+        sd = w.can.new('secret-data', 24)
+        op = w.can.new('object-value:OPAQUE_DATA', 24)
+        return [('create', kdrv.create(ALG.AES, 256, mask=ALLMASK)),
+                ('create_key_pair', kdrv.create_key_pair(ALG.RSA, 1024)),
+                ('register-key', kdrv.register(OT.SYMMETRIC_KEY, kdrv.symmetric_key_secret(key, ALG.AES, 256), mask=ALLMASK)),
+                ('register-secret', kdrv.register(OT.SECRET_DATA, kdrv.secret_for(OT.SECRET_DATA, sd))),
+                ('register-opaque', kdrv.register(OT.OPAQUE_DATA, kdrv.secret_for(OT.OPAQUE_DATA, op))),
+                ('derive-pbkdf2', kdrv.derive_key([base], DM.PBKDF2, dparams(cryptographic_parameters=sha, salt=salt, iteration_count=5))),
+                ('derive-hash', kdrv.derive_key([base], DM.HASH, dparams(cryptographic_parameters=sha))),
+                ('derive-secret-data', kdrv.derive_key([base], DM.HMAC, dparams(cryptographic_parameters=sha, derivation_data=salt), otype=OT.SECRET_DATA,
+                                                       attrs=[kdrv.attr(AT.CRYPTOGRAPHIC_LENGTH, 256)])),
+                ('locate', kdrv.locate([kdrv.attr(AT.OBJECT_TYPE, OT.SYMMETRIC_KEY)], maximum=1))]
+    pt, iv = w.can.new('plaintext', 32), w.can.new('iv', 16)
+    followers = [('get', lambda: kdrv.get(None)), ('get_attributes', lambda: kdrv.get_attributes(None)),
+                 ('get_attribute_list', lambda: kdrv.get_attribute_list(None)), ('activate', lambda: kdrv.activate(None)),
+                 ('revoke', lambda: kdrv.revoke(None)), ('destroy', lambda: kdrv.destroy(None)),
+                 ('encrypt', lambda: kdrv.encrypt(None, cparams(**CBC), pt, iv)),
+                 ('mac', lambda: kdrv.mac(None, cparams(cryptographic_algorithm=ALG.HMAC_SHA256), pt)),
+                 ('sign', lambda: kdrv.sign(None, cparams(cryptographic_algorithm=ALG.RSA, padding_method=E.PaddingMethod.PSS, hashing_algorithm=HA.SHA_256), pt)),
+                 ('modify', lambda: kdrv.modify_attribute_v1(None, kdrv.attr(AT.NAME, kdrv.name_value('renamed'), 0))),
+                 ('delete_attribute', lambda: kdrv.delete_attribute_v1(None, 'Name', 0))]
+    n = len(creators())
+    for ci in range(n):
+        # every follower after this creator, a few per batch (fresh creator items each time: payload objects are single use)
+        for k in range(0, len(followers), 4):
+            cname, citem = creators()[ci]
+            fs = followers[k:k + 4]
+            r = w.req([citem] + [f() for _, f in fs], 'batch %s + [%s] without identifiers' % (cname, ', '.join(x for x, _ in fs)),
+                      batch_option=E.BatchErrorContinuationOption.CONTINUE)
+            first = r['items'][0] if r['items'] else None
+            if first is not None and kdrv.ok(first):
+                p = first['payload'] or {}
+                for key in ('unique_identifier', 'private_key_unique_identifier', 'public_key_unique_identifier'):
+                    if p.get(key) is not None and cname != 'locate':
+                        _learn_value(w, str(p[key]), 'key-material:server-made-' + cname)
+    # and the same with the identifier-less item in a LATER request (the placeholder does not survive the request)
+    cname, citem = creators()[5]
+    w.req([citem], 'derive alone')
+    w.one(kdrv.get(None), 'get without identifier in the next request')
+
+
+@atom()
+def oversized_values(w):
+    """Values larger than 1 KiB, 8 KiB and 64 KiB for every stored object type (a storage or encoding layer that
+    refuses them may quote them)."""
+    sizes = [1536, 9000, 70000]
+    K = E.KeyFormatType
+    for ot in kdrv.STORED_TYPES:
+        for n in sizes:
+            val = w.can.new('object-value:oversized-' + ot.name, n)
+            if ot == OT.SYMMETRIC_KEY:
+                sec = kdrv.symmetric_key_secret(val, ALG.AES, n * 8)
+            elif ot == OT.SPLIT_KEY:
+                sec = kdrv.core_secret(ot, cryptographic_algorithm=ALG.AES, cryptographic_length=n * 8, key_format_type=K.RAW, key_value=val,
+                                       key_wrapping_data=None, split_key_parts=3, key_part_identifier=1, split_key_threshold=2,
+                                       split_key_method=E.SplitKeyMethod.XOR, prime_field_size=None)
+            elif ot in (OT.PUBLIC_KEY, OT.PRIVATE_KEY):
+                sec = kdrv.core_secret(ot, cryptographic_algorithm=ALG.RSA, cryptographic_length=1024,
+                                       key_format_type=K.PKCS_1 if ot == OT.PUBLIC_KEY else K.PKCS_8, key_value=val, key_wrapping_data=None)
+            else:
+                sec = kdrv.secret_for(ot, val)
+            uid = w.uid_of(w.one(kdrv.register(ot, sec), 'register %s of %d bytes' % (ot.name, n)))
+            if uid:
+                w.one(kdrv.get(uid), 'get oversized')
+                w.one(kdrv.get_attributes(uid))
+                w.one(kdrv.destroy(uid))
+    # an oversized value in operations that do not store it
+    uid = w.any('aes') or reg_sym(w)
+    big = w.can.new('plaintext', 70000)
+    w.one(kdrv.encrypt(uid, cparams(**CBC), big, w.can.new('iv', 16)), 'encrypt 70000 bytes')
+    w.one(kdrv.mac(w.any('hmac') or reg_sym(w, n=32, alg=ALG.HMAC_SHA256, kind='hmac'), cparams(cryptographic_algorithm=ALG.HMAC_SHA256), big), 'mac 70000 bytes')
 
 
 @atom()
@@ -1062,6 +1167,8 @@ CURATED = [
     ('engine-lifecycle', 'engine', ['setup_keys', 'lifecycle_all_types', 'create_paths', 'create_key_pair_paths', 'not_found_and_denied', 'locate_query']),
     ('engine-crypto', 'engine', ['setup_keys', 'encrypt_decrypt', 'mac_paths', 'derive_paths']),
     ('engine-backend-refusals', 'engine', ['setup_keys', 'cipher_backend_refusals']),
+    ('engine-batch-placeholder', 'engine', ['setup_keys', 'batch_placeholder']),
+    ('engine-oversized-values', 'engine', ['setup_keys', 'oversized_values']),
     ('engine-asymmetric', 'engine', ['setup_keys', 'asymmetric_crypto']),
     ('engine-wrap-register', 'engine', ['setup_keys', 'lifecycle_all_types', 'get_and_wrap', 'register_failures']),
     ('session-auth', 'session', ['setup_keys', 'sess_auth_password', 'sess_slugs']),
